@@ -55,6 +55,9 @@ CHECKS = {
  "C07": dict(technique="explicit-state exploration of edit histories over the real incremental lexer (inductive single-step sweep + BFS), differential oracle",
    text="all (text, byte range, replacement) triples over the alphabets up to the bounds, and BFS over edit histories feeding update results forward; in every state tokens equal a fresh lex and the reported window is truthful",
    note="oracle lexer::lex is itself checked by C06; bounded by alphabet and length", ref="4/C07"),
+ "C18": dict(technique="exhaustive enumeration of client message histories against the release binary (lock-step client; every byte prefix + end of input) with a lifecycle automaton as reference, plus stateless preemption-bounded exploration of all schedules of the real run() (tokio shim + shuttle, own bounded-DFS scheduler)",
+   text="all histories over the 8-letter message alphabet up to length 4/5 against the built binary: one response per request, ids and order, prescribed result/error code per phase, exit status 0 after shutdown / 1 otherwise, termination after end of input; every (quick: every 6th + all frame boundaries) byte prefix of all sessions up to length 2/3 followed by end of input: prompt exit, output a well-formed prefix of the expected response stream; in process: every history that does not reach process::exit(1), pipelined, all schedules with <= 2/3 preemptions (one less for the longest histories), real and clamped channel capacities: no deadlock, run() returns Ok, all responses present when run() returns",
+   note="lifecycle automaton lifecycle.rs is nondeterministic where the statement is silent; std::process::exit cannot be intercepted in process, hence the split; children run with TOKIO_WORKER_THREADS=4 (still the multi-threaded runtime)", ref="4/C18"),
 }
 ALL = ["C%02d" % i for i in range(1, 21)]
 m = {
